@@ -98,9 +98,28 @@ func cmdVerify(args []string) {
 	tier := fs.String("tier", "quick", "quick|thorough")
 	dumpq := fs.String("dumpq", "", "write failing queries to this directory")
 	repo := fs.String("repo", "/repo", "repository")
+	mut := fs.String("mutate", "", "file::old::new  (apply a source edit through the loader overlay)")
 	fs.Parse(args)
 	t0 := time.Now()
-	e, err := loadEngine(*repo, "verif")
+	var overlay map[string][]byte
+	if *mut != "" {
+		parts := strings.SplitN(*mut, "::", 3)
+		if len(parts) != 3 {
+			fmt.Fprintln(os.Stderr, "bad -mutate")
+			os.Exit(2)
+		}
+		src, err := os.ReadFile(*repo + "/" + parts[0])
+		if err != nil {
+			fmt.Fprintln(os.Stderr, err)
+			os.Exit(2)
+		}
+		if strings.Count(string(src), parts[1]) != 1 {
+			fmt.Fprintf(os.Stderr, "mutation source text occurs %d times\n", strings.Count(string(src), parts[1]))
+			os.Exit(2)
+		}
+		overlay = map[string][]byte{*repo + "/" + parts[0]: []byte(strings.Replace(string(src), parts[1], parts[2], 1))}
+	}
+	e, err := loadEngineOverlay(*repo, "verif", overlay)
 	if err != nil {
 		fmt.Fprintln(os.Stderr, "load:", err)
 		os.Exit(2)
@@ -131,6 +150,13 @@ func cmdVerify(args []string) {
 			}
 		}
 		d.dischargeAll(fc.obls, runtime.NumCPU())
+		d.dischargeAll(fc.covers, runtime.NumCPU())
+		reach := 0
+		for _, c := range fc.covers {
+			if c.Result != "unsat" {
+				reach++
+			}
+		}
 		byName := map[string][]*Obligation{}
 		var names []string
 		for _, o := range fc.obls {
@@ -174,11 +200,15 @@ func cmdVerify(args []string) {
 			}
 		}
 		st := "PROVED"
+		if reach == 0 && fc.panicExits == 0 {
+			st = "VACUOUS"
+			bad++
+		}
 		if nfail > 0 {
 			st = "FAILED"
 			bad++
 		}
-		fmt.Printf("%-28s %s  %d obligations (%d queries), %d paths, %.1fs\n", k, st, len(names), len(fc.obls), fc.npaths, time.Since(t1).Seconds())
+		fmt.Printf("%-28s %s  %d obligations (%d queries), %d paths (%d/%d returns reachable), %.1fs\n", k, st, len(names), len(fc.obls), fc.npaths, reach, len(fc.covers), time.Since(t1).Seconds())
 	}
 	if bad > 0 {
 		os.Exit(1)
@@ -204,4 +234,40 @@ func cmdList(args []string) {
 
 func cmdCheck(args []string)    { fmt.Println("not yet"); os.Exit(2) }
 func cmdSelftest(args []string) { fmt.Println("not yet"); os.Exit(2) }
-func cmdLemmas(args []string)   { fmt.Println("not yet"); os.Exit(2) }
+func cmdLemmas(args []string) {
+	fs := flag.NewFlagSet("lemmas", flag.ExitOnError)
+	dumpq := fs.String("dumpq", "", "write failing queries to this directory")
+	fs.Parse(args)
+	e, err := loadEngine("/repo", "verif")
+	if err != nil {
+		fmt.Fprintln(os.Stderr, "load:", err)
+		os.Exit(2)
+	}
+	obls, err := e.lemmaObligations()
+	if err != nil {
+		fmt.Fprintln(os.Stderr, err)
+		os.Exit(2)
+	}
+	d := newDischarger("quick")
+	defer d.cleanup()
+	d.keep = *dumpq != ""
+	d.dischargeAll(obls, runtime.NumCPU())
+	bad := 0
+	for _, o := range obls {
+		st := "ok  "
+		if o.Result != "unsat" {
+			st = "FAIL"
+			bad++
+		}
+		if true {
+			if *dumpq != "" && o.Query != "" {
+				os.MkdirAll(*dumpq, 0o755)
+				os.WriteFile(fmt.Sprintf("%s/%s.smt2", *dumpq, mangle(o.Name)), []byte(o.Query), 0o644)
+			}
+		}
+		fmt.Printf("   %s %-40s %s %s %.2fs\n", st, o.Name, o.Result, o.Solver, o.TimeS)
+	}
+	if bad > 0 {
+		os.Exit(1)
+	}
+}
